@@ -86,6 +86,11 @@ CLAIMED = {
         note="Trusted: Lean kernel; hand model tied by correspondence; os.urandom rebound in bromelia.base; the class-level lock replaced by the scheduler's lock; atomicity below a source line (GIL) not modelled; registry growth without bound is outside the property.",
         technique="Lean 4 proof (inductive invariant over all interleavings and random streams) + schedule-enumerating differential correspondence",
         design="4 C15"),
+    "C14": dict(
+        text="Lean: transition system of the rendezvous at the granularity of single synchronisation operations (caller: register, queue, wait, clear, release, return; dispatch thread per arriving answer: check, get, update, set, wait, pop), any number of callers keyed by distinct Hop-by-Hop identifiers, any number of answers per identifier (duplicates) and stray answers, every interleaving; theorems by induction over all schedules: a caller that returns is given an answer that arrived for its identifier (never its own request, never another record's), the registry holds a caller's entry from registration until the caller has released the dispatcher, so no answer is dropped before that; a caller whose answer has been dispatched is enabled or past the wait; in every reachable state where nothing can move and an answer has arrived the caller has returned with an answer and every dispatch thread has finished (no lost wake-up, no deadlock); a result is final. Tie: real send_message / handler_pending_answers / PendingAnswer / Worker registry methods under the simulation scheduler (depth-first schedule enumeration for 1-2 callers, random and priority schedules with line-level hand-over for 1..4 callers, duplicates and strays); return values compared by object identity; the log of registry and event operations replayed on the model.",
+        note="Trusted: Lean kernel; hand model tied by trace replay; in-process worker (the multiprocessing boundary is not exercised); simulation scheduler; rate-limiting barriers time out immediately; distinctness of Hop-by-Hop identifiers is C15.",
+        technique="Lean 4 proof (inductive invariant over all interleavings, deadlock-freedom by case analysis of quiescent states) + schedule-enumerating trace validation",
+        design="4 C14"),
 }
 
 NOT_YET = {
